@@ -94,6 +94,18 @@ def arcsOfTuple (xs : List Int) : Except Err (List Nat) :=
 /-- `BitString.prettyIn(tuple/list)`: `''.join(b and '1' or '0' for b in value)` -/
 def bitsOfTuple (xs : List Int) : List Bool := xs.map fun z => decide (z ≠ 0)
 
+def _root_.Asn1.Val.isAbsent : Val → Bool
+  | .absent => true
+  | _ => false
+
+/-- a member that is left out of the plain mapping: an absent OPTIONAL one, and (unless `give`) a
+    DEFAULT one that holds its default -/
+def skipTree (give : Bool) (k : FKind) (v : Val) : Bool :=
+  match k, v with
+  | .opt, .absent => true
+  | .dflt d, v => !give && v == d
+  | _, _ => false
+
 /-! ### native encoder: value object -> built-ins -/
 
 mutual
@@ -117,15 +129,16 @@ def toNative : Ty → Val → Except Err PyVal
   | _, _ => .error .refused
 /-- `SetEncoder.encode`: every component except an OPTIONAL one that is not a value -/
 def toNativeFields : Fields → Nat → List Val → Except Err (List (Nat × PyVal))
-  | .nil, _, [] => .ok []
-  | .cons k t rest, i, v :: vs =>
-    match k, v with
-    | .opt, .absent => toNativeFields rest (i + 1) vs
-    | _, v =>
-      match toNative t v with
-      | .error e => .error e
-      | .ok p => (toNativeFields rest (i + 1) vs).map ((i, p) :: ·)
-  | _, _, _ => .error .refused
+  | .nil, _, vs => if vs.isEmpty then .ok [] else .error .refused
+  | .cons k t rest, i, vs =>
+    match vs with
+    | [] => .error .refused
+    | v :: vs' =>
+      if k.isOpt && v.isAbsent then toNativeFields rest (i + 1) vs'
+      else
+        match toNative t v with
+        | .error e => .error e
+        | .ok p => (toNativeFields rest (i + 1) vs').map ((i, p) :: ·)
 def toNativeAlt : Fields → Nat → Nat → Val → Except Err (Nat × PyVal)
   | .nil, _, _, _ => .error .refused
   | .cons _ t _, pos, 0, v => (toNative t v).map (pos, ·)
@@ -219,14 +232,13 @@ def toTreeG (give : Bool) : Ty → Val → PyVal
   | .any, .any bs => .bytes bs
   | _, _ => .none
 def treeFields (give : Bool) : Fields → Nat → List Val → List (Nat × PyVal)
-  | .cons k t rest, i, v :: vs =>
-    if (match k, v with
-        | .opt, .absent => true
-        | .dflt d, v => !give && v == d
-        | _, _ => false)
-    then treeFields give rest (i + 1) vs
-    else (i, toTreeG give t v) :: treeFields give rest (i + 1) vs
-  | _, _, _ => []
+  | .nil, _, _ => []
+  | .cons k t rest, i, vs =>
+    match vs with
+    | [] => []
+    | v :: vs' =>
+      if skipTree give k v then treeFields give rest (i + 1) vs'
+      else (i, toTreeG give t v) :: treeFields give rest (i + 1) vs'
 def treeAlt (give : Bool) : Fields → Nat → Nat → Val → List (Nat × PyVal)
   | .nil, _, _, _ => []
   | .cons _ t _, pos, 0, v => [(pos, toTreeG give t v)]
